@@ -390,12 +390,15 @@ class Frame:
     def st_FunctionDef(self, s):
         body = [b for b in s.body if not (isinstance(b, ast.Expr) and isinstance(b.value, ast.Constant))]
         a = s.args
-        if len(body) == 1 and isinstance(body[0], ast.Return) and body[0].value is not None and not s.decorator_list \
-                and not (a.vararg or a.kwarg or a.kwonlyargs or a.defaults or a.posonlyargs):
-            # a local helper that is one return expression: the same thing as a lambda bound to the name
+        one_return = len(body) == 1 and isinstance(body[0], ast.Return) and body[0].value is not None
+        one_call = len(body) == 1 and isinstance(body[0], ast.Expr) and isinstance(body[0].value, ast.Call)
+        if (one_return or one_call) and not s.decorator_list and not (a.vararg or a.kwarg or a.kwonlyargs or a.defaults or a.posonlyargs):
+            # a local helper that is one return expression (or one call made for its effect): the same thing as a lambda bound to the name
             lam = ast.Lambda(args=a, body=body[0].value)
             ast.copy_location(lam, s)
             key = f'def@{self.mod}:{s.lineno}:{s.name}'
+            if one_call:
+                self.ctx.__dict__.setdefault('lambda_returns_none', set()).add(key)
             self.ctx.lambdas[key] = (lam, dict(self.env), self.mod, id(self))
             self.env[s.name] = ('lambda', key)
             return FALL
